@@ -21,10 +21,21 @@
 //      and whenever a model is in sync with the circuit: value() == x- (resp. y-) HPWL of the
 //      circuit, fx.value()+fy.value() == Circuit::hpwl()  (hence sx == fx, sy == fy)
 //  (d) IncrNetModel::check() never throws.
+//  (e) `dprun` (cases d<k>): the real optimiser object.  In a forked child the circuit is legalized, a
+//      DetailedPlacer is constructed on it and run with the case's parameters; at construction, at every
+//      primitive move announced through hook H3 (coloquinte::verif::onDetailedOp; swap / insert before the
+//      move, shift after it) up to a per-case cap, at every callback and at the end, DetailedPlacer::value()
+//      is (1) printed next to the Lean model's value after the same position updates (the positions are
+//      read from xtopo_/ytopo_ and sent as `dpupd` lines) and (2) compared by the oracle with the
+//      from-scratch HPWL of the positions held by placement_ (pin offsets by the geometry above, frozen at
+//      construction as IncrNetModel documents) and, at construction, with Circuit::hpwl().  The final
+//      `dpdump` compares both complete models (positions, both CSR tables) of the placer.
 //
 // --replay FILE: FILE is the JSON written by check.py (member "input") or the raw input text:
 // a circuit block followed by op lines.  The ops are re-executed verbatim; if the text holds only a
 // circuit, a fresh random op sequence (seeded by --seed) is run on it.
+#include <fcntl.h>
+
 #include <algorithm>
 #include <climits>
 #include <cmath>
@@ -32,6 +43,10 @@
 
 #include "common/circuit.hpp"
 #include "place_detailed/incr_net_model.hpp"
+// dprun reads xtopo_ / ytopo_ / placement_ and sets callback_ the way DetailedPlacer::place does
+#define private public
+#include "place_detailed/place_detailed.hpp"
+#undef private
 
 using namespace coloquinte;
 
@@ -187,6 +202,7 @@ struct Session {
   std::map<std::string, Slot> slots;
   long long epoch = 0;
   bool sawSpan = false, updChanged = false;
+  bool closed = false;  // after dprun the driver's circuit is the legalized one: the case ends there
   long long lastUpdDelta = 0;
 
   explicit Session(vh::Out &o) : out(o) {}
@@ -209,6 +225,7 @@ struct Session {
     slots.clear();
     epoch = 0;
     sawSpan = updChanged = false;
+    closed = false;
     vh::setCase(id, circuitText);
     out.ops << "case " << id << "\n" << circuitText;
     out.impl << "case " << id << "\n";
@@ -243,12 +260,204 @@ struct Session {
     vh::crashCtx().input += "\n";
   }
 
+
+  // ---------------------------------------------------------------- the real DetailedPlacer (see header, (e))
+  struct DpNet { std::vector<std::pair<int, std::pair<long long, long long>>> pins; };  // (cell, (xo, yo))
+
+  static ColoquinteParameters dpParams(unsigned long long pseed) {
+    vh::Rng pg = vh::Rng::forCase(pseed, 4242);
+    ColoquinteParameters p = vc::genParams(pg, pg.chance(3, 4));
+    p.seed = pg.range(0, 1000);
+    return p;
+  }
+
+  void dprun(unsigned long long pseed) {
+    std::string txt, diag;
+    const Circuit &start = *circ;
+    std::string st = vh::isolated(
+        [&](std::ostream &os) {
+          // the library reports progress on stdout
+          int nul = open("/dev/null", O_WRONLY);
+          if (nul >= 0) dup2(nul, 1);
+          ColoquinteParameters params = dpParams(pseed);
+          Circuit c = start;
+          try {
+            c.legalize(params);
+          } catch (const std::exception &e) {
+            os << "C dprun_legalize_" << vc::exClass(e) << "\n";
+            return;
+          }
+          {
+            std::istringstream cs(vc::circuitString(c));
+            std::string l;
+            while (std::getline(cs, l)) os << "O " << l << "\n";
+          }
+          int n = c.nbCells();
+          // oracle nets: geometric pin offsets at construction time
+          std::vector<DpNet> nets;
+          for (size_t k = 0; k + 1 < c.netLimits_.size(); ++k) {
+            DpNet net;
+            for (int f = c.netLimits_[k]; f < c.netLimits_[k + 1]; ++f) {
+              geo::Pt o = oraclePinOffset(c, f);
+              net.pins.push_back({c.pinCells_[f], {o.x, o.y}});
+            }
+            if (!net.pins.empty()) nets.push_back(net);
+          }
+          std::unique_ptr<DetailedPlacer> pl;
+          try {
+            params.check();
+            pl.reset(new DetailedPlacer(c, params));
+          } catch (const std::exception &e) {
+            os << "C dprun_constructor_" << vc::exClass(e) << "\n";
+            return;
+          }
+          std::vector<long long> lastX(n), lastY(n);
+          long long lastValue = 0;
+          int observations = 0, hookObs = 0, valueChanges = 0;
+          bool anyFail = false;
+          auto oracle = [&]() {
+            long long v = 0;
+            for (auto &net : nets) {
+              long long x0 = LLONG_MAX, x1 = LLONG_MIN, y0 = LLONG_MAX, y1 = LLONG_MIN;
+              for (auto &p : net.pins) {
+                long long x = (long long)pl->placement_.cellX(p.first) + p.second.first, y = (long long)pl->placement_.cellY(p.first) + p.second.second;
+                x0 = std::min(x0, x); x1 = std::max(x1, x); y0 = std::min(y0, y); y1 = std::max(y1, y);
+              }
+              v += (x1 - x0) + (y1 - y0);
+            }
+            return v;
+          };
+          auto observe = [&](const std::string &where, bool first) {
+            long long v = pl->value();
+            if (first) {
+              os << "O dpbuild\n";
+              for (int i = 0; i < n; ++i) { lastX[i] = pl->xtopo_.cellPos(i); lastY[i] = pl->ytopo_.cellPos(i); }
+            } else {
+              std::ostringstream up;
+              int k = 0;
+              for (int i = 0; i < n; ++i) {
+                long long x = pl->xtopo_.cellPos(i), y = pl->ytopo_.cellPos(i);
+                if (x != lastX[i] || y != lastY[i]) {
+                  up << " " << i << " " << x << " " << y;
+                  lastX[i] = x; lastY[i] = y;
+                  ++k;
+                }
+              }
+              os << "O dpupd " << k << up.str() << "\n";
+              if (v != lastValue) ++valueChanges;
+            }
+            lastValue = v;
+            os << "I dp " << v << "\n";
+            os << "E\n";
+            ++observations;
+            long long want = oracle();
+            if (v != want && !anyFail) {
+              anyFail = true;
+              os << "F DetailedPlacer::value() = " << v << " " << where << " but the from-scratch HPWL of the positions held by the placer is " << want << "\n";
+            }
+            if (first && v != c.hpwl() && !anyFail) {
+              anyFail = true;
+              os << "F DetailedPlacer::value() = " << v << " right after construction but Circuit::hpwl() = " << c.hpwl() << "\n";
+            }
+          };
+          observe("after construction", true);
+          pl->callback_ = [&](PlacementStep) {
+            observe("at callback " + std::to_string(observations), false);
+            os << "C dprun_callback_observations\n";
+          };
+#ifdef COLOQUINTE_VERIF_DETAILED_OPLOG
+          static std::function<void(const char *)> hookFn;
+          hookFn = [&](const char *kind) {
+            std::string k = kind;
+            if (k == "h_reorder") return;  // the two models are mid-enumeration there
+            if (hookObs >= 60) return;
+            ++hookObs;
+            observe("at move " + k + " (observation " + std::to_string(observations) + ")", false);
+            os << "C dprun_move_observations_" << k << "\n";
+          };
+          coloquinte::verif::onDetailedOp = [](const char *kind, const int *, int) { hookFn(kind); };
+#else
+          os << "C dprun_no_hook_H3\n";
+#endif
+          std::string res = "ok";
+          try {
+            pl->check();
+            pl->run();
+            pl->check();
+          } catch (const std::exception &e) {
+            res = vc::exClass(e);
+          }
+#ifdef COLOQUINTE_VERIF_DETAILED_OPLOG
+          coloquinte::verif::onDetailedOp = nullptr;
+#endif
+          os << "C dprun_run_" << res << "\n";
+          observe("after run()", false);
+          // both complete models of the placer
+          os << "O dpdump\n";
+          for (int d = 0; d < 2; ++d) {
+            const IncrNetModel &m = d == 0 ? pl->xtopo_ : pl->ytopo_;
+            os << "I dump " << (d == 0 ? "dx" : "dy") << " P";
+            for (int i = 0; i < m.nbCells(); ++i) os << " " << m.cellPos(i);
+            os << " N";
+            for (int k = 0; k < m.nbNets(); ++k) {
+              os << " " << m.nbNetPins(k);
+              for (int j = 0; j < m.nbNetPins(k); ++j) os << " " << m.pinCell(k, j) << " " << m.netPinOffset(k, j);
+            }
+            os << " C";
+            for (int i = 0; i < m.nbCells(); ++i) {
+              os << " " << m.nbCellPins(i);
+              for (int j = 0; j < m.nbCellPins(i); ++j) os << " " << m.pinNet(i, j) << " " << m.cellPinOffset(i, j);
+            }
+            os << "\n";
+          }
+          os << "C dprun_observations " << observations << "\n";
+          if (valueChanges > 0) os << "C dprun_cases_value_changed\nV\n";
+          if (lastValue > 0) os << "W\n";
+        },
+        txt, 120, &diag);
+    if (st != "ok") {  // abort / sanitizer / timeout of the real code: C07's subject
+      out.count("dprun_child_" + st);
+      return;
+    }
+    out.count("dprun_completed");
+    std::istringstream is(txt);
+    std::string l;
+    while (std::getline(is, l)) {
+      if (l.size() < 1) continue;
+      char t = l[0];
+      std::string rest = l.size() > 2 ? l.substr(2) : "";
+      if (t == 'O') out.ops << rest << "\n";
+      else if (t == 'I') out.impl << rest << "\n";
+      else if (t == 'E') out.evaluations++;
+      else if (t == 'F') fail(rest);
+      else if (t == 'V') updChanged = true;
+      else if (t == 'W') sawSpan = true;
+      else if (t == 'C') {
+        std::istringstream cs(rest);
+        std::string key;
+        long long k = 1;
+        cs >> key;
+        if (!(cs >> k)) k = 1;
+        out.count(key, k);
+      }
+    }
+  }
+
   // executes one protocol line; returns false (nothing written) when the line is not executable
   bool exec(const std::string &op) {
     std::istringstream is(op);
     std::string kw;
     if (!(is >> kw)) return false;
+    if (closed) return false;
     Circuit &c = *circ;
+    if (kw == "dprun") {
+      unsigned long long pseed;
+      if (!(is >> pseed)) return false;
+      record(op);
+      dprun(pseed);
+      closed = true;
+      return true;
+    }
     if (kw == "orient") {
       int cell, o;
       if (!(is >> cell >> o) || cell < 0 || cell >= c.nbCells() || o < 0 || o > 7) return false;
@@ -763,7 +972,9 @@ int main(int argc, char **argv) {
              "(orientation sweep over all 8 orientations, uniform orientations, full and subset x/y models, <=30 position updates "
              "with checks, subset rebuilds); one evaluation = one compared state (hpwl / offs / placed / build / upd / check line and "
              "each in-sync model at an hpwl line); non-trivial = some net spans >= 2 distinct pin positions and at least one update "
-             "changed a model's value(); distinct by hash of circuit text + op history";
+             "changed a model's value(); distinct by hash of circuit text + op history.  Cases d<k>: vc::genCircuit circuit + extra nets, legalized, "
+             "then the real DetailedPlacer constructed and run (random detailed parameters); value() observed at construction, at up to 60 "
+             "primitive moves (hook H3), at every callback and at the end; non-trivial = value() changed during the run";
   out.notes.push_back("Circuit::addNet silently drops a net with 0 pins (measured: addNet_empty_dropped); empty nets are created through Circuit::setNets");
   Session s(out);
   Tier t;
@@ -834,6 +1045,29 @@ int main(int argc, char **argv) {
     randomOps(s, g, out, t);
     finishCase(s, out);
     out.count("cases");
+  }
+  // ---- the real optimiser object (header, (e))
+  long long dcases = a.thorough() ? 3000 : (a.search() ? 1500 : 300);
+  for (long long k = 0; k < dcases; ++k) {
+    if (a.only >= 0 && k != a.only) continue;
+    vh::Rng g = vh::Rng::forCase(a.seed, 5000000 + k);
+    vc::GenOpts o;
+    o.maxCells = g.range(3, 16);
+    o.maxRows = g.range(1, 6);
+    o.nets = true;
+    o.multiRow = g.chance(1, 2);
+    o.turned = g.chance(1, 2);
+    o.polarities = g.chance(1, 2);
+    o.fixedCells = g.chance(3, 4);
+    o.maxUtil = 0.9;
+    Circuit c = vc::genCircuit(g, o);
+    addExtraNets(g, c, g.range(1, 8), out);
+    s.begin("d" + std::to_string(k), c);
+    measureCircuit(c, out);
+    s.exec("hpwl");
+    s.exec(S("dprun", (unsigned long long)(a.seed * 1000003ull + k)));
+    finishCase(s, out);
+    out.count("dp_cases");
   }
   out.finish();
   return 0;
